@@ -1,6 +1,7 @@
 package props
 
 import (
+	"google.golang.org/protobuf/proto"
 	"fmt"
 	"math/rand"
 
@@ -114,7 +115,20 @@ func c09Case(c *core.C) {
 		c.Cover("operands:near-equal")
 	}
 	det := map[string]any{"A": gen.Canon(A), "B": gen.Canon(B)}
-	a0, b0 := gen.Clone(A), gen.Clone(B)
+	a0, b0, c0 := gen.Clone(A), gen.Clone(B), gen.Clone(C)
+	// every call below works on the SAME operand values (as a caller's would): an operand that an earlier call
+	// changed shows in the later results, and is compared with its snapshot at the end
+	defer func() {
+		for _, o := range []struct {
+			name      string
+			now, then *sbom.NodeList
+		}{{"A", A, a0}, {"B", B, b0}, {"C", C, c0}} {
+			if !proto.Equal(o.now, o.then) {
+				c.Violatef("union-changed-its-operand", det0(A, B), "after the unions of this case operand %s is no longer what it was: %s became %s", o.name, gen.Canon(o.then), gen.Canon(o.now))
+				return
+			}
+		}
+	}()
 	shared := gen.Inter(gen.IDSet(A), gen.IDSet(B))
 	if len(shared) > 0 || (len(A.Edges) > 0 && len(B.Edges) > 0) {
 		c.DistinctStr(gen.Canon(A) + "|" + gen.Canon(B))
@@ -128,7 +142,7 @@ func c09Case(c *core.C) {
 		c.Sample(map[string]any{"A": gen.Canon(A), "B": gen.Canon(B), "shared": shared.Keys()})
 	}
 	var U *sbom.NodeList
-	if guard(c, "Union", det, func() { U = gen.Clone(A).Union(gen.Clone(B)) }) {
+	if guard(c, "Union", det, func() { U = A.Union(B) }) {
 		return
 	}
 	ids, roots, triples := unionModel(A, B)
@@ -170,10 +184,10 @@ func c09Case(c *core.C) {
 	var AA, BA, AE, EA *sbom.NodeList
 	empty := &sbom.NodeList{}
 	if guard(c, "Union", det, func() {
-		AA = gen.Clone(A).Union(gen.Clone(A))
-		BA = gen.Clone(B).Union(gen.Clone(A))
-		AE = gen.Clone(A).Union(empty)
-		EA = (&sbom.NodeList{}).Union(gen.Clone(A))
+		AA = A.Union(A)
+		BA = B.Union(A)
+		AE = A.Union(empty)
+		EA = (&sbom.NodeList{}).Union(A)
 	}) {
 		return
 	}
@@ -194,8 +208,8 @@ func c09Case(c *core.C) {
 	det3 := map[string]any{"A": gen.Canon(A), "B": gen.Canon(B), "C": gen.Canon(C)}
 	var L, R *sbom.NodeList
 	if guard(c, "Union", det3, func() {
-		L = gen.Clone(A).Union(gen.Clone(B)).Union(gen.Clone(C))
-		R = gen.Clone(A).Union(gen.Clone(B).Union(gen.Clone(C)))
+		L = A.Union(B).Union(C)
+		R = A.Union(B.Union(C))
 	}) {
 		return
 	}
@@ -217,7 +231,7 @@ func c09Case(c *core.C) {
 
 	// in-place Add: same sets, receiver wins when non-empty
 	recv := gen.Clone(A)
-	if guard(c, "Add", det, func() { recv.Add(gen.Clone(B)) }) {
+	if guard(c, "Add", det, func() { recv.Add(B) }) {
 		return
 	}
 	c.Cover("op:Add")
@@ -261,3 +275,7 @@ func modelList(a, b *sbom.NodeList) *sbom.NodeList {
 }
 
 var _ = fmt.Sprint
+
+func det0(a, b *sbom.NodeList) map[string]any {
+	return map[string]any{"A": gen.Canon(a), "B": gen.Canon(b)}
+}
